@@ -28,6 +28,7 @@ type lat struct {
 	UDPBuf   int
 	LateKey  bool // keyring configured empty at creation; the key is installed afterwards
 	Frag     int  `json:",omitempty"` // > 0: every stream read returns at most this many bytes
+	Rollout  bool `json:",omitempty"` // roll-out stage: the receiver already has a key (verification of incoming and outgoing traffic off), the sender has none yet
 }
 
 func (l lat) String() string {
@@ -36,6 +37,9 @@ func (l lat) String() string {
 		lb = fmt.Sprintf("%dB", len(l.Label))
 	}
 	fr := ""
+	if l.Rollout {
+		fr = " receiver-has-key-sender-plaintext"
+	}
 	if l.Frag > 0 {
 		fr = fmt.Sprintf(" stream-reads<=%dB", l.Frag)
 	}
